@@ -143,6 +143,33 @@ class Series:
     def count(self, x):
         return sum(1 for v in self.data if v == x)
 
+    def mean(self):
+        return _sum(self.data) / len(self.data)
+
+    def sum(self):
+        return _sum(self.data)
+
+    def median(self):
+        return median(self.data)
+
+    def sort_values(self, ascending=True):
+        order = stable_sort(list(range(len(self.data))), key=lambda k: self.data[k], reverse=not ascending)
+        return Series([self.data[k] for k in order], [self.index[k] for k in order], self.name)
+
+    def drop_duplicates(self):
+        out, idx = [], []
+        for i, v in zip(self.index, self.data):
+            if not any(v == o for o in out):
+                out.append(v)
+                idx.append(i)
+        return Series(out, idx, self.name)
+
+    def nunique(self):
+        return len(self.unique())
+
+    def isin(self, vals):
+        return Series([any(v == o for o in vals) for v in self.data], self.index, self.name)
+
 
 class Values(list):
     """what `.values` returns: a list with tolist()/reshape"""
@@ -208,6 +235,39 @@ class _GroupBy:
 
     def median(self):
         return self._agg(median)
+
+    def mean(self):
+        return self._agg(lambda v: _sum(v) / len(v))
+
+    def sum(self):
+        return self._agg(_sum)
+
+    def max(self):
+        return self._agg(lambda v: Series(v).max())
+
+    def min(self):
+        return self._agg(lambda v: Series(v).min())
+
+    def first(self):
+        return self._agg(lambda v: v[0])
+
+    def last(self):
+        return self._agg(lambda v: v[-1])
+
+    def count(self):
+        return self._agg(len)
+
+    def agg(self, f):
+        return {'median': self.median, 'mean': self.mean, 'sum': self.sum, 'max': self.max, 'min': self.min, 'first': self.first, 'last': self.last, 'count': self.count}[f]()
+
+    aggregate = agg
+
+
+def _sum(v):
+    t = v[0]
+    for x in v[1:]:
+        t = t + x
+    return t
 
 
 class DataFrame:
@@ -320,6 +380,16 @@ class DataFrame:
         i = self.columns.index(by)
         order = stable_sort(list(range(len(self.rows))), key=lambda k: self.rows[k][i], reverse=not ascending)
         return DataFrame([self.rows[k] for k in order], columns=list(self.columns), index=[self.index[k] for k in order])
+
+    def drop_duplicates(self, subset=None):
+        cols = [self.columns.index(c) for c in (subset or self.columns)]
+        keep, seen = [], []
+        for i, r in enumerate(self.rows):
+            k = [r[c] for c in cols]
+            if not any(all(a == b for a, b in zip(k, s_)) for s_ in seen):
+                seen.append(k)
+                keep.append(i)
+        return DataFrame([self.rows[i] for i in keep], columns=list(self.columns), index=[self.index[i] for i in keep])
 
     def head(self, n=5):
         return DataFrame(self.rows[:n], columns=list(self.columns), index=self.index[:n])
